@@ -54,7 +54,7 @@ def main(ctx):
         bindir = ctx.harness(GROUP, profile=profile, bins=["c21"], hooks=False)
         if inputs is None:
             # one generated input set (from the release binary), executed in both profiles
-            rc, out = vf.sh([os.path.join(bindir, "c21"), "gen", str(ctx.seed), str(ctx.n(600, 30000)), ctx.tier], timeout=600)
+            rc, out = vf.sh([os.path.join(bindir, "c21"), "gen", str(ctx.seed), str(ctx.n(600, 12000)), ctx.tier], timeout=600)
             if rc != 0:
                 raise vf.CheckerBroken("c21 gen failed: " + out[-400:])
             inputs = [l for l in out.split("\n") if l.strip()]
@@ -62,7 +62,7 @@ def main(ctx):
         if profile == "debug" and not ctx.replay_path:
             # the debug build only differs in overflow behaviour: run the range grids and a slice of the rest
             ins = [l for i, l in enumerate(inputs) if l.split("|")[3] != "0" or l.split("|")[4] not in ("4", "5", "6") or i % 7 == 0]
-            ins = ins[: ctx.n(1000, 40000)]
+            ins = ins[: ctx.n(1000, 15000)]
         cases = ctx.gen_exec(bindir, "c21", 0, inputs=ins, env=env)
         ctx.correspond("external_data[%s]" % profile, GROUP, REQ, cases, show="show",
                        fn_name="ExtData.load / ExtData.allowed / ExtData.components (%s build)" % profile)
